@@ -48,6 +48,7 @@ type Style struct {
 	SpaceBeforeColon bool
 	ColonGap         int               // >0: what stands between a key and its colon: 1 a tab, 2 a line break and the indentation, 3 two blanks
 	TightAnn         bool              // no blank between a value and the annotation that follows it
+	SplitAnn         int               // >0: every SplitAnn-th node with two rules or more (or rules and a note) gets two annotations: a multi-line one closing on the next line and a second one starting on that closing line
 	RuleOrder        func(n int) []int // permutation of rule indexes (nil = as written)
 	// Per-annotation override hook (nil = use the fields above)
 	Pick func(label string, n int) int
@@ -70,6 +71,7 @@ type printer struct {
 	sn       int  // stray-note counter
 	be       int  // empty-container counter (BlankInEmpty)
 	ng       int  // rule-name counter (NameGap)
+	sa       int  // split-annotation counter
 	br       int  // rule counter (BlockInRules)
 	afterArr bool // a non-empty array was closed and no value has begun since (annotations are not taken there)
 	ann      int  // annotation counter (MixedAnn)
@@ -159,6 +161,23 @@ func (p *printer) emptyGap() string {
 	return ""
 }
 
+// hasItemNotes: some enum rule has notes on its items (they need the one-item-per-line layout).
+func hasItemNotes(rules []ref.SRule) bool {
+	for _, r := range rules {
+		for _, it := range r.Enum {
+			if it.Comment != "" {
+				return true
+			}
+		}
+		for _, o := range r.Or {
+			if hasItemNotes(o.Rules) {
+				return true
+			}
+		}
+	}
+	return false
+}
+
 func nonEmptyArray(n *ref.SNode) bool { return n.Kind == ref.SArr && len(n.Items) > 0 }
 
 // strayAfterBrace writes a note after the closing brace of a non-empty object: no value starts on
@@ -201,6 +220,45 @@ func (p *printer) annotation(n *ref.SNode, level int) {
 			}
 		}
 		return
+	}
+	if p.st.SplitAnn > 0 && p.st.RuleOrder == nil && !p.st.AutoItemNotes && !hasItemNotes(n.Rules) && (len(n.Rules) >= 2 || len(n.Rules) >= 1 && note != "") {
+		p.sa++
+		if p.sa%p.st.SplitAnn == 0 {
+			h := len(n.Rules)
+			if len(n.Rules) >= 2 && (note == "" || p.sa%2 == 0) {
+				h = len(n.Rules) / 2
+			}
+			p.w(" ")
+			n.AnnBegin = len(p.b)
+			p.inMulti = true
+			p.w("/* ")
+			p.ruleObject(n.Rules[:h], false, level)
+			p.w(p.st.NL)
+			p.indent(level + 1)
+			p.w("*/ ")
+			second := (p.sa/p.st.SplitAnn)%2 == 0 // the second one inline or multi-line
+			if strings.Contains(note, "#") {
+				second = true // in an inline annotation a '#' would begin a user comment
+			}
+			p.inMulti = second
+			if second {
+				p.w("/* ")
+			} else {
+				p.w("// ")
+			}
+			if h < len(n.Rules) {
+				p.ruleObject(n.Rules[h:], false, level)
+				if note != "" {
+					p.w(" - ")
+				}
+			}
+			p.w(note)
+			if second {
+				p.w(" */")
+			}
+			p.inMulti = false
+			return
+		}
 	}
 	if !p.st.TightAnn {
 		p.w(" ")
